@@ -8,6 +8,8 @@
       functions of the SET / the multiset of siblings: invariant under every permutation;
     * typedef-before-struct and struct-before-typedef build the same record;
     * the block dictionary is independent of block / file order;
+    * the order of `_parsed_includes` (which namespace resolves a C type) is independent of the
+      iteration order of every `includes` set;
     * the loop of `IntrospectablePass.validate` (which aliases and callables end up
       introspectable="0") reaches the greatest stable state, the same for every order in which
       the namespace is walked, i.e. for every order of the declarations;
@@ -32,10 +34,10 @@
       wins" is order dependent (C16_blocks_dup_counterexample) but never silent
       (C16_blocks_dup_warned: a "multiple comment blocks" warning is emitted iff there are
       duplicates); such inputs are counted outside by the harness.
-    * C16_resolve_perm_partial: all transitively included namespaces that can resolve a C type
-      agree on the result.  Without it the UNCHANGED code is hash-seed dependent
-      (`Transformer._parse_include` iterates the `includes` set unsorted):
-      C16_include_order_counterexample, reported as a finding.
+    * C16_parsed_includes_perm: none beyond "`includes` is a set" (its elements are pairwise
+      distinct).  C16_resolve_perm_unique is a separate robustness fact about
+      `_resolve_type_from_ctype` (any order of `_parsed_includes` gives the same answer when all
+      namespaces that can resolve a C type agree); the determinism no longer rests on it.
     * C16_fixpoint_reached / C16_fixpoint_walk_order (which nodes end up introspectable="0"):
       every walk visits every node (the visiting orders are permutations of the namespace).  The
       model keeps the nodes at fixed indices and renders "the declarations were written in
@@ -123,7 +125,7 @@ theorem C16_mirrored_functions :
        "if parser is None:", "    parser = GIRParser(types_only=not self._passthrough_mode)",
        "    parser.parse(filename)", "    if self._cachestore is not None:",
        "        self._cachestore.store(filename, parser)",
-       "for include in parser.get_namespace().includes:",
+       "for include in sorted(parser.get_namespace().includes):",
        "    if include.name not in self._parsed_includes:",
        "        dep_filename = self._find_include(include)", "        self._parse_include(dep_filename)",
        "if not uninstalled:", "    for pkg in parser.get_namespace().exported_packages:",
@@ -164,16 +166,13 @@ theorem C16_fixpoint_source :
 
 /-- the set iterations that are NOT wrapped in `sorted(...)`, each justified:
     * `get_main_position` (comprehension + `min`): order independent by `C16_main_position`;
-    * `_parse_include` over `includes`: NOT justified — it decides the order of
-      `_parsed_includes`; harmless only under the hypothesis of `C16_resolve_perm_partial`,
-      otherwise `C16_include_order_counterexample` (finding);
     * `_parse_include` over `exported_packages`: adds to another set (pkg-config arguments of
       the preprocessor run, not part of the GIR);
-    * `_apply_annotations_params` over `unknown`: only the order of warnings. -/
+    * `_apply_annotations_params` over `unknown`: only the order of warnings.
+    (`_parse_include` over `includes` is sorted since 5d8d03e: `C16_parsed_includes_perm`.) -/
 def allowedUnsortedSetIters : List (String × String × String × String) :=
   [("giscanner/ast.py", "Node.get_main_position", "self.file_positions", "comp"),
    ("giscanner/ast.py", "Node.get_main_position", "self.file_positions", "min"),
-   ("giscanner/transformer.py", "Transformer._parse_include", "parser.get_namespace().includes", "for"),
    ("giscanner/transformer.py", "Transformer._parse_include", "parser.get_namespace().exported_packages", "for"),
    ("giscanner/maintransformer.py", "MainTransformer._apply_annotations_params", "unknown", "for")]
 
@@ -468,7 +467,28 @@ theorem C16_blocks_dup_counterexample :
    [("foo_f".toList, "second".toList), ("foo_f".toList, "first".toList)],
    List.Perm.swap _ _ _, by decide⟩
 
-/-! ### transitive includes (finding) -/
+/-! ### transitive includes -/
+
+/-- The order of `_parsed_includes` — which decides the namespace a C type known to several
+    included namespaces resolves to — does not depend on the order in which Python iterates the
+    `includes` SET of any dependency (hash seed, unpickled from the cache or parsed afresh):
+    what commit 5d8d03e bought.  Full statement, no hypothesis beyond "a set". -/
+theorem C16_parsed_includes_perm (iter iter' : Str → List (Str × Str))
+    (hset : ∀ n, (iter n).Nodup) (hp : ∀ n, (iter' n).Perm (iter n))
+    (fuel : Nat) (parsed : List Str) (root : Str) :
+    parseInclude iter' fuel parsed root = parseInclude iter fuel parsed root := by
+  have e : (fun n => sortedIncludes (iter' n)) = (fun n => sortedIncludes (iter n)) :=
+    funext fun n => C16_includes_perm (iter n) (iter' n) (hset n) (hp n)
+  unfold parseInclude
+  rw [e]
+
+/-- ... hence neither does the type a C identifier resolves to. -/
+theorem C16_resolve_includes_perm (iter iter' : Str → List (Str × Str))
+    (hset : ∀ n, (iter n).Nodup) (hp : ∀ n, (iter' n).Perm (iter n))
+    (depOf : Str → Option DepNs) (fuel : Nat) (root ident : Str) :
+    resolveCtype ((parseInclude iter' fuel [] root).filterMap depOf) ident
+      = resolveCtype ((parseInclude iter fuel [] root).filterMap depOf) ident := by
+  rw [C16_parsed_includes_perm iter iter' hset hp]
 
 /-- all dependency namespaces that can resolve `ident` agree on the GI name -/
 def UniqueProvider (deps : List DepNs) (ident : Str) : Prop :=
@@ -476,15 +496,9 @@ def UniqueProvider (deps : List DepNs) (ident : Str) : Prop :=
     giNameOf ident ma = some x → giNameOf ident mb = some y → x = y)
   ∧ (∀ a ∈ deps, ∀ b ∈ deps, ∀ x y, fallbackOf ident a = some x → fallbackOf ident b = some y → x = y)
 
-/-- the property at full strength for type resolution: FALSE on the unchanged code
-    (C16_include_order_counterexample) -/
-def C16_resolve_perm_full : Prop :=
-  ∀ (deps deps' : List DepNs) (ident : Str), deps'.Perm deps →
-    resolveCtype deps' ident = resolveCtype deps ident
-
-/-- Type resolution does not depend on the order of `_parsed_includes` (which for transitive
-    includes is a set iteration order) when at most one result is possible. -/
-theorem C16_resolve_perm_partial (deps deps' : List DepNs) (ident : Str) (hp : deps'.Perm deps)
+/-- Robustness of `_resolve_type_from_ctype`: ANY order of `_parsed_includes` gives the same
+    answer when at most one result is possible. -/
+theorem C16_resolve_perm_unique (deps deps' : List DepNs) (ident : Str) (hp : deps'.Perm deps)
     (hu : UniqueProvider deps ident) : resolveCtype deps' ident = resolveCtype deps ident := by
   unfold resolveCtype
   have hms : (sortBy natLe (fun m : DepNs × Str × Nat => m.2.2) (deps'.filterMap (matchOf ident))).Perm
@@ -507,23 +521,26 @@ def depB : DepNs := ⟨"DepB".toList, ["D".toList], ["Thing".toList], [("DThing"
 def depOfName (n : Str) : Option DepNs :=
   if n = "DepA".toList then some depA else if n = "DepB".toList then some depB else none
 
-/-- FINDING (unchanged code).  `Top` includes `DepA` and `DepB`; both can resolve `DThing`.
-    The two possible iteration orders of Top's `includes` SET give two different
-    `_parsed_includes` orders, hence two different resolved types in the emitted GIR. -/
-theorem C16_include_order_counterexample :
-    let iter1 : Str → List Str := fun n => if n = "Top".toList then ["DepA".toList, "DepB".toList] else []
-    let iter2 : Str → List Str := fun n => if n = "Top".toList then ["DepB".toList, "DepA".toList] else []
-    (iter2 "Top".toList).Perm (iter1 "Top".toList)
-    ∧ resolveCtype ((parseInclude iter1 3 [] "Top".toList).filterMap depOfName) "DThing".toList
+def topIter1 : Str → List (Str × Str) := fun n =>
+  if n = "Top".toList then [("DepA".toList, "1.0".toList), ("DepB".toList, "1.0".toList)] else []
+def topIter2 : Str → List (Str × Str) := fun n =>
+  if n = "Top".toList then [("DepB".toList, "1.0".toList), ("DepA".toList, "1.0".toList)] else []
+
+/-- Regression witness (the finding 5d8d03e repaired).  `Top` includes `DepA` and `DepB`; both can
+    resolve `DThing`.  With the loop over the set as iterated, the two iteration orders of Top's
+    `includes` gave two `_parsed_includes` orders and two different types in the GIR; with the
+    sorted loop both give `DepA.Thing`. -/
+theorem C16_include_order_old_counterexample :
+    (topIter2 "Top".toList).Perm (topIter1 "Top".toList)
+    ∧ resolveCtype ((parseIncludeOld topIter1 3 [] "Top".toList).filterMap depOfName) "DThing".toList
         = some "DepA.Thing".toList
-    ∧ resolveCtype ((parseInclude iter2 3 [] "Top".toList).filterMap depOfName) "DThing".toList
+    ∧ resolveCtype ((parseIncludeOld topIter2 3 [] "Top".toList).filterMap depOfName) "DThing".toList
         = some "DepB.Thing".toList
-    ∧ ¬ C16_resolve_perm_full := by
-  refine ⟨List.Perm.swap _ _ _, by decide, by decide, ?_⟩
-  intro h
-  have := h [depA, depB] [depB, depA] "DThing".toList (List.Perm.swap _ _ _)
-  revert this
-  decide
+    ∧ resolveCtype ((parseInclude topIter1 3 [] "Top".toList).filterMap depOfName) "DThing".toList
+        = some "DepA.Thing".toList
+    ∧ resolveCtype ((parseInclude topIter2 3 [] "Top".toList).filterMap depOfName) "DThing".toList
+        = some "DepA.Thing".toList := by
+  refine ⟨List.Perm.swap _ _ _, by decide, by decide, by decide, by decide⟩
 
 /-! ### which nodes are introspectable="0" does not depend on the order of the declarations -/
 
@@ -611,6 +628,13 @@ example : parseEmit stripFoo [.struct .record "_BarT".toList [] "b.h".toList 7,
       .typedef .record "BarT".toList (some "_BarT".toList) [] "a.h".toList 3] = .ok [] := by decide
 example : blockDict [("a".toList, 1), ("b".toList, 2), ("a".toList, 3)] = ([("a".toList, 3), ("b".toList, 2)], 1) := by
   decide
+example : ∀ n, (topIter1 n).Nodup := by
+  intro n; unfold topIter1; split <;> decide
+example : ∀ n, (topIter2 n).Perm (topIter1 n) := by
+  intro n; unfold topIter1 topIter2; split
+  · exact List.Perm.swap _ _ _
+  · exact List.Perm.refl _
+example : parseInclude topIter2 3 [] "Top".toList = ["DepA".toList, "DepB".toList, "Top".toList] := by decide
 def depOther : DepNs := ⟨"Other".toList, ["O".toList], [], []⟩
 example : UniqueProvider [depA, depOther] "DThing".toList := by
   have hno : matchOf "DThing".toList depOther = none := by decide
